@@ -65,6 +65,42 @@ def gen_direct(rng, quick):
         scripts.append(s)
     return scripts
 
+def call_forms():
+    """(what, source, acceptable outcomes): ways of writing a gate call that the generated programs do not use.  An outcome is the list of
+    operation lines of the emitted circuit, or 'rejected' (Semantic error); a call that is accepted must reach the simulator"""
+    F = []
+    one = "function main() -> void { qubit q; %s }"
+    F.append(("plain call", one % "x(q);", [["x q[0];"]]))
+    F.append(("parenthesised gate name", one % "(x)(q);", ["rejected", ["x q[0];"]]))
+    F.append(("doubly parenthesised gate name", one % "((h))(q);", ["rejected", ["h q[0];"]]))
+    F.append(("call of a call", one % "h(q)(q);", ["rejected"]))
+    F.append(("parenthesised rotation", one % "(rx)(q, 1.5f);", ["rejected", ["rx(1.500000) q[0];"]]))
+    gen = ("class R<T> { public T v; public constructor(T v) -> R<T> { this.v = v; return this; } "
+           "public function rot(qubit q) -> void { %s(q, this.v); } }\nfunction main() -> void { qubit a; R<%s> r = new R<%s>(%s); r.rot(a); }")
+    for g in ("rx", "ry", "rz"):
+        for ty, lit, txt in (("int", "3", "3.000000"), ("long", "2L", "2.000000"), ("bit", "1b", "1.000000"), ("float", "1.5f", "1.500000")):
+            F.append(("%s angle of type %s reached through a type parameter" % (g, ty), gen % (g, ty, ty, lit), ["rejected", ["%s(%s) q[0];" % (g, txt)]]))
+    F.append(("array literal as an angle", one % "rx(q, {3.0f});", ["rejected"]))
+    F.append(("cast angle", one % "ry(q, (float) 2);", [["ry(2.000000) q[0];"]]))
+    F.append(("computed angle", one % "float t = 0.5f; rz(q, t + t);", [["rz(1.000000) q[0];"]]))
+    return F
+
+def run_call_forms(chk):
+    from checks import langcommon as lc
+    F = call_forms()
+    res = lc.run_impl([src for _, src, _ in F])
+    for (what, src, ok), r in zip(F, res):
+        if r.get("status") == "error" and r.get("cat") == "Semantic":
+            got = "rejected"
+        elif r.get("status") == "ok":
+            got = [l.strip() for l in (r.get("qasm") or "").splitlines() if l.strip() and not l.startswith(("OPENQASM", "include", "qreg", "creg"))]
+        else:
+            got = "%s %s %s" % (r.get("status"), r.get("cat"), (r.get("msg") or "")[:100])
+        if got not in ok:
+            chk.report("c01-call-form", {"what": what, "source": src, "acceptable": ok, "got": got, "how": "bloch --emit-qasm <source>"},
+                       "gate call written as %s: expected %s, got %s" % (what, ok, got))
+    return len(F)
+
 def run(chk):
     quick = chk.tier == "quick"
     chk.proofs()
@@ -110,6 +146,7 @@ def run(chk):
         chk.violation("c01-correspondence", {"theorem": "correspondence sim_model <-> QasmSimulator (relation: equal amplitudes within 1e-9)",
                                              "count": phase_only, "note": "states agree up to a global phase on every disagreeing script"},
                       "model and implementation differ by a global phase only on %d scripts" % phase_only, no_input=True)
+    ncall = run_call_forms(chk)
     # through the language: dispatcher, argument order, access paths
     progs = []
     for _ in range(120 if quick else 1200):
@@ -131,7 +168,7 @@ def run(chk):
             chk.report("c01-program", payload, "program-level gate application disagrees with the model: %s" % d[0][1][:100])
     chk.sample({"program": res[0]["src"], "model_line": res[0]["prog"].model_line()})
     chk.cov.update({
-        "traces_validated_against_impl": len(scripts) + len(progs), "direct_scripts": len(scripts), "programs": len(progs),
+        "traces_validated_against_impl": len(scripts) + len(progs), "direct_scripts": len(scripts), "programs": len(progs), "call_form_programs": ncall,
         "disagreements": dis + pdis, "exhaustive": False,
         "rule": "direct: every gate x every target / ordered (control,target) pair x every computational basis state for n = 1..%d "
                 "(exhaustive for those n), plus random lazily-allocated entangling circuits up to n = %d; program level: generated "
